@@ -184,6 +184,7 @@ let () =
        match toks with
        | [] -> ()
        | "#" :: _ -> ()
+       | ["!reset"] -> world := world_empty
        | ["!mode"; "full"] -> full := true
        | ["!mode"; "result"] -> full := false
        | ["!digest"; m] ->
